@@ -378,3 +378,33 @@ fn probe_compress_sequential_read_over_short_read_source() {
         assert!(got[..] == plain[U - 5000..], "source returning {k} bytes per read: bytes across the block boundary differ");
     }
 }
+
+/// C08 "never hangs": every single-bit alteration of the size table of a valid stream (compressed sizes, last block size, lengths)
+/// -- among them tables that announce MORE data than the blocks decompress to: every seek and read on such a reader returns (a
+/// value or an error) within the time limit. BOUND: all bits of the footer of a 1000-byte and of a 4 MiB + 1000-byte stream.
+#[test]
+fn probe_altered_size_table_never_hangs() {
+    for n in [1000usize, U + 1000] {
+        let s = pcomp(n);
+        let flen = u32::from_le_bytes(s[s.len() - 4..].try_into().unwrap()) as usize + 4;
+        let fstart = s.len() - flen;
+        for bit in 0..(flen * 8) {
+            let mut t = s.clone();
+            t[fstart + bit / 8] ^= 1 << (bit % 8);
+            let (tx, rx) = std::sync::mpsc::channel();
+            std::thread::spawn(move || {
+                exercise(&t);
+                // ... and every position up to what the (altered) table announces, from the end backwards
+                if let Ok(mut r) = preader(&t) {
+                    let mut b = [0u8; 16];
+                    for back in [1i64, 4, 1000, 4096, U as i64 - 1, U as i64, U as i64 + 1] {
+                        let _ = r.seek(SeekFrom::End(-back));
+                        let _ = r.read(&mut b);
+                    }
+                }
+                let _ = tx.send(());
+            });
+            assert!(rx.recv_timeout(std::time::Duration::from_secs(60)).is_ok(), "stream of {n} bytes, bit {bit} of the size table flipped: a seek or read on the reader does not return (hangs)");
+        }
+    }
+}
